@@ -5,14 +5,15 @@
 # 3. stores it as /verif/seeded/<ID>-<variant>/ (patch.diff, demo, meta.json)
 set -u
 id="$1"; v="$2"; tier="$3"; shift 3
-src=/tmp/seed/$id/out/$v
+base=${SEED_BASE:-/tmp/seed}
+src=$base/$id/out/$v
 [ -f "$src/patch.diff" ] || { echo "no patch in $src"; exit 2; }
 export GOFLAGS=-mod=mod GOPROXY=off GOSUMDB=off GOTOOLCHAIN=local
 wt=$(mktemp -d /tmp/sc-XXXXXX); rmdir "$wt"
 git -C /repo worktree add -q --detach "$wt" HEAD || exit 2
 trap 'git -C /repo worktree remove --force "$wt" 2>/dev/null; git -C /repo worktree prune' EXIT
 demo=$(ls "$src" | grep -E '\.go$' | head -5)
-sed -e "s#/tmp/seed/$id/wt#$wt#g" "$src/demo_cmd.txt" > /tmp/sc-cmd.$$
+sed -e "s#$base/$id/wt#$wt#g" "$src/demo_cmd.txt" > /tmp/sc-cmd.$$
 place_demo() {
   for f in $demo; do
     pk=$(grep -m1 '^package ' "$src/$f" | awk '{print $2}')
